@@ -23,13 +23,18 @@ LEVEL = "proof"
 TECHNIQUE = ("Lean 4 proofs over a hand transcription of FormatterToXMLUnicode (escaping, CDATA, comments/PIs, element stack, "
              "XML declaration, DOCTYPE, XalanIndentWriter) + the three writers + both 512-entry buffer layers, and over an "
              "independent specification side (strict decoders, character reader, document reader with prolog); character "
-             "tables, entity / prolog strings, buffer sizes, transcode factor, CDATA guard and repair flags regenerated from "
+             "tables, entity / prolog strings, buffer sizes, the flush-before-direct-write shape of every bulk write, transcode "
+             "factor, CDATA guard and repair flags regenerated from "
              "the source on every run; correspondence run of the real serializers (bytes, writeData chunk sizes, error kinds) "
              "against the compiled model; Xerces SAX2 re-parse of the real output as the independent specification "
              "predicate; the Lean document reader against Xerces on the real output; the Lean indentation filter replayed "
              "through the real plain serializer against the real indenting serializer")
-LEVEL_TEXT = ("Machine-checked (35 theorems, all proved): UTF-8/UTF-16 encode-decode round trips for every scalar sequence; "
-              "transparency and bounds of both buffer layers for every write sequence (no chunk splits an item); text and "
+LEVEL_TEXT = ("Machine-checked (38 theorems, all proved): UTF-8/UTF-16 encode-decode round trips for every scalar sequence; "
+              "transparency and bounds of both buffer layers for every write sequence (no chunk splits an item), and with the "
+              "bulk-write shape read from the source (flushBuffer() before a direct write of a run longer than the buffer, in "
+              "XalanUTF8Writer, XalanUTF16Writer and XalanOutputStream::write) the units handed to the transcoder are the units "
+              "of all write calls in call order, for every sequence of calls and every length "
+              "(output_is_concatenation_of_writes; kernel-checked counterexample without the flush); text and "
               "attribute-value escaping read back to the same string for every sequence of XML Chars, every writer family, both "
               "XML versions, every representability predicate covering ASCII; forbidden characters, and with the committed "
               "repairs unpaired surrogates and U+FFFE/U+FFFF, end in an error, never output; CDATA round trip for every string "
@@ -44,7 +49,8 @@ LEVEL_TEXT = ("Machine-checked (35 theorems, all proved): UTF-8/UTF-16 encode-de
               "has a text or CDATA neighbour (indent_tree_roundtrip); the regenerated character tables agree with the "
               "Recommendations entry by entry; kernel-checked counterexamples for the CDATA code as it was before dc2c5a1. Tied "
               "to the working tree by the translator and by replaying generated SAX scripts (5 encodings x 2 versions x prolog "
-              "options x indent amounts, directed buffer-boundary and exhaustive short-string cases) through the real "
+              "options x indent amounts, directed buffer-boundary cases, one run of 511..2049 units as element / attribute name, "
+              "raw text, PI target, comment, DOCTYPE identifier at varying buffer fill levels, exhaustive short strings) through the real "
               "serializers and the model.")
 LEVEL_NOTE = ("Trusted: Lean kernel; axioms propext/Classical.choice/Quot.sound only; translate/c04_tables.py (regex over the "
               "source); the hand transcription of FormatterToXMLUnicode.hpp / XalanUTF8Writer.hpp / XalanUTF16Writer.hpp / "
@@ -66,6 +72,9 @@ THEOREMS = [
     "XalanModel.Props.C04.buffer_transparent",
     "XalanModel.Props.C04.buffer_in_bounds",
     "XalanModel.Props.C04.stream_transparent",
+    "XalanModel.Props.C04.generated_bulk_flushes",
+    "XalanModel.Props.C04.output_is_concatenation_of_writes",
+    "XalanModel.Props.C04.bulk_without_flush_counterexample",
     "XalanModel.Props.C04.utf8_roundtrip",
     "XalanModel.Props.C04.utf16_roundtrip",
     "XalanModel.Props.C04.content_roundtrip",
@@ -112,8 +121,12 @@ def request_line(kind, enc, ver, doc):
     return "doc %s %s %s %s" % (kind, enc, ver, " ".join(G.events(doc)))
 
 
-def gen_opts(r, enc):
+def gen_opts(r, enc, ver="1.0"):
     decl = 0 if (enc in ("UTF-8", "UTF-16", "US-ASCII") and r.chance(1, 2)) else 1
+    if ver == "1.1":
+        # without a declaration a parser reads the document as XML 1.0, where the references XML 1.1 needs for
+        # restricted characters (&#8;) are not well-formed: omit-xml-declaration is only generated for version 1.0
+        decl = 1
     sa = r.choice(["-", "-", G.hx(G.u("yes")), G.hx(G.u("no"))])
     sys_ = r.choice(["-", G.hx(G.u("a.dtd")), G.hx(G.u("http://x/y.dtd"))])
     pub = r.choice(["-", "-", G.hx(G.u("-//W3C//DTD XHTML 1.0 Strict//EN")), G.hx(G.u("-//X//DTD y//EN"))])
@@ -253,12 +266,15 @@ def _local_candidates(doc):
                 yield (k, s, n[2])
             if n[2] is not None:
                 yield (k, n[1], None)
-        elif k == "m":
+        elif k in ("m", "r"):
             for s in shorter(n[1]):
-                yield (k, s)
+                # a shrunk string must still be something ElemComment hands over (no "--", no trailing "-")
+                if k == "r" or G.strip_for_comment(s) == s:
+                    yield (k, s)
         elif k == "p":
             for s in shorter(n[2]):
-                yield (k, n[1], s)
+                if G.strip_for_pi(s) == s:             # ... and ElemPI: deleting the middle of "?x>" must not make "?>"
+                    yield (k, n[1], s)
     return rec(doc)
 
 
@@ -430,7 +446,7 @@ def run(ctx):
         ver = r.weighted([("1.0", 3), ("1.1", 2)])
         if r.chance(1, 4):
             # prolog variants: omit-xml-declaration, standalone, doctype-system / doctype-public (XHTML: " />")
-            cases.append(("U", enc, ver + "|" + gen_opts(r, enc), doc, "gen"))
+            cases.append(("U", enc, ver + "|" + gen_opts(r, enc, ver), doc, "gen"))
             ctx.hist["prolog-variant"] = ctx.hist.get("prolog-variant", 0) + 1
         else:
             cases.append(("U", enc, ver, doc, "gen"))
@@ -441,6 +457,7 @@ def run(ctx):
             cases.append(("L", enc, ver.split("|")[0], doc, "gen"))
     repair_correspondence(ctx, model, work, r)
     cases += boundary_cases(ctx.thorough)
+    cases += long_run_cases(ctx.thorough)
     if ctx.thorough:
         cases += exhaustive_cases()
 
@@ -489,6 +506,10 @@ def run(ctx):
         for f in fails:
             groups.setdefault((f[0], f[1], f[2], f[5][0]), []).append(f)
         reps = [g[0] for g in groups.values()]
+        if os.environ.get("C04_DEBUG_FAILS"):
+            with open(os.environ["C04_DEBUG_FAILS"], "w") as f:
+                for g in reps:
+                    f.write(g[5][0] + " || " + request_line(g[0], g[1], g[2], g[3])[:3000] + "\n")
         smalls = shrink_many(harness, model, work, [f[:5] for f in reps], "judge")
         replies = run_impl(harness, [request_line(f[0], f[1], f[2], sm) for f, sm in zip(reps, smalls)], work, "shrunk")
         for f, sm, i2 in zip(reps, smalls, replies + ["crash"] * (len(smalls) - len(replies))):
@@ -678,6 +699,47 @@ def boundary_cases(thorough):
     return out
 
 
+LONG_RUNS = [511, 512, 513, 1023, 1024, 1025, 2049]
+
+
+def long_run_cases(thorough):
+    """directed: ONE run of 511 / 512 / 513 / 1023 / 1024 / 1025 / 2049 units on every path that hands a whole string
+    to the writer (`write(chars, n)`: fits / flush then fits / longer than the buffer -> flush + direct write) -
+    element name, attribute name, charactersRaw (disable-output-escaping) text, PI target, comment, DOCTYPE system and
+    public identifier - at varying fill levels of the 512-entry buffer, in every encoding.  A long run that overtakes
+    what is still buffered (XML declaration, open tag, earlier text) is not well-formed."""
+    out = []
+    pads = [0, 1, 60, 300, 470, 511] if thorough else [0, 7, 470]
+    for enc in ENCODINGS:
+        for ver in (VERSIONS if thorough else ["1.0"]):
+            for n in LONG_RUNS:
+                run = [97 + (i % 26) for i in range(n)]
+                for pad in pads:
+                    pre = [("t", [120] * pad, None)] if pad else []
+                    post = [("t", G.u("z"), None)]
+                    docs = [
+                        _el(*(pre + [("el", run, [], [])] + post)),                                  # element name
+                        _el(*(pre + [("el", G.u("e"), [(run, G.u("v"))], [("t", G.u("y"), None)])])),   # attribute name
+                        _el(*(pre + [("r", run)] + post)),                                           # raw text
+                        _el(*(pre + [("p", run, G.u("d"))] + post)),                                 # PI target
+                        _el(*(pre + [("m", run)] + post)),                                           # comment
+                    ]
+                    for d in docs:
+                        out.append(("U", enc, ver, d, "long-run"))
+                    if n in (513, 2049) and pad in (0, 470) and enc in ("UTF-8", "UTF-16"):
+                        out.append(("L", enc, ver, docs[0], "long-run"))
+                        out.append(("L", enc, ver, docs[2], "long-run"))
+                # DOCTYPE identifiers (the fill level varies with the declaration and the root name)
+                for decl in (0, 1):
+                    for root in ("r", "root" * 20):
+                        if decl == 0 and enc not in ("UTF-8", "UTF-16", "US-ASCII"):
+                            continue
+                        doc = _el(("t", G.u("z"), None), name=root)
+                        out.append(("U", enc, "%s|decl=%d,sa=-,sys=%s,pub=-" % (ver, decl, G.hx(run)), doc, "long-run"))
+                        out.append(("U", enc, "%s|decl=%d,sa=-,sys=%s,pub=%s" % (ver, decl, G.hx(G.u("a.dtd")), G.hx(run)), doc, "long-run"))
+    return out
+
+
 def exhaustive_cases():
     """thorough tier: every string of length <= 3 over a compact alphabet as text, CDATA and attribute value,
     and class representatives at every pad 495..520, for every encoding and version"""
@@ -742,8 +804,8 @@ def parse_request(evs):
             stack[-1][3].append(n)
         elif ev[0] in ("t", "c"):
             stack[-1][3].append((ev[0], G.unhx(f[0]), G.unhx(f[1]) if len(f) > 1 else None))
-        elif ev[0] == "m":
-            stack[-1][3].append(("m", G.unhx(f[0])))
+        elif ev[0] in ("m", "r"):
+            stack[-1][3].append((ev[0], G.unhx(f[0])))
         elif ev[0] == "p":
             stack[-1][3].append(("p", G.unhx(f[0]), G.unhx(f[1])))
     return stack[0][3][0]
